@@ -8,7 +8,7 @@ names (`SELECT`, `JSON_EXTRACT_OP`, …; single characters are named `LPAREN`, `
 `Step`/`ListFmt` are the shapes into which the translator (`vh extract sqlformat`) puts every `Format` method of
 `ast.go`; `Fmt.run` / `ListFmt.run` interpret them.  Core Lean only.
 -/
-namespace Octo.Sql
+namespace Octo.SqlSyn
 
 inductive Kw
   | SELECT | FROM | WHERE | GROUP | BY | HAVING | ORDER | LIMIT | OFFSET | DISTINCT | AS | ASC | DESC | JOIN | INNER | CROSS
@@ -108,4 +108,4 @@ def ListFmt.run (f : ListFmt) : List (List Tok) → List Tok
   | [] => f.last
   | x :: xs => f.first ++ x ++ ListFmt.items f.sep xs ++ f.last
 
-end Octo.Sql
+end Octo.SqlSyn
